@@ -20,7 +20,7 @@ def closers_ok(closed, nclosers):
 OPENERS = [("[", "]"), ("[E|", "]"), ("[E|E|", "]"), ("(", ")"), ("(i|", ")"), ("{", "}"), ("{E|", "}"), ("λ", ";"), ("λ2|", ";"), ("ƛ", ";"), ("'", ";"), ("µ", ";"),
            ("⟨", "⟩"), ("⟨E|", "⟩"), ("@f:1|", ";"), ("@f|", ";")]
 # innermost bodies: (text, trailing closer text, has payload)
-INNER = [("E", "", False), ("", "", False), ("E`P", "`", True), ("`P", "`", True), ("E‛P", "", True), ("E@g", ";", False), ("vE", "", False), ("₌EE", "", False), ("EλE;E", "", False), ("[E|E]", "", False)]
+INNER = [("E", "", False), ("", "", False), ("E`P", "`", True), ("`P", "`", True), ("E`P" + chr(92) + chr(92), "`", True), ("`" + chr(92) + "`P", "`", True), ("E‛P", "", True), ("E@g", ";", False), ("vE", "", False), ("₌EE", "", False), ("EλE;E", "", False), ("[E|E]", "", False)]
 PREFIX = ["", "E", "[E|E]E", "λE;"]
 
 
@@ -37,7 +37,7 @@ def skeletons(tier, seed):
         out += rnd.sample(d2, 80) + rnd.sample(d3, 30)
     else:
         out += d2[:0] + rnd.sample(d2, 1500) + rnd.sample(d3, 1200)
-        d4 = [("", [a, b, c, d], body, bc, pay) for a in OPENERS for b in OPENERS for c in OPENERS for d in OPENERS for (body, bc, pay) in INNER[:6]]
+        d4 = [("", [a, b, c, d], body, bc, pay) for a in OPENERS for b in OPENERS for c in OPENERS for d in OPENERS for (body, bc, pay) in INNER[:8]]
         out += rnd.sample(d4, 300)
     return out
 
